@@ -85,6 +85,27 @@ CHECKS['C16'] = dict(
     design='4 (C16), 6 (D14, D15)',
     technique='Coq lemmas on remove_node / extend_node / on_premerge; sampled vm_compute correspondence of premerge+merge; scenario oracle (existing/missing/non-list targets, two operators, dotted keys) for replays')
 
+CHECKS['C09'] = dict(
+    text='Machine-checked: C09_alias (a !xref evaluates to the very same object - value and identity - recorded for the path at the end of its chain; both paths hold it; any tree, state, order), '
+         'C09_recorded_forever (a recorded object is never replaced during the build), C09_chain_terminates (for every well-formed tree and reference graph the chain loop never exhausts the '
+         'budget |tree|+1: each step adds a new existing path - pigeonhole via NoDup_incl_length), C09_self_reference (error). Partial: termination of the WHOLE evaluator (cycles through '
+         'containers end in Python\'s recursion limit, modelled as a re-entrancy error) is runtime behaviour - covered by the correspondence under a 3 s watchdog and by the reference-graph oracle.',
+    design='4 (C09), 6 (D8, D9)',
+    technique='Coq proofs over the memoising evaluator model (state-extension invariant, pigeonhole for the chain loop); sampled vm_compute correspondence incl. object identities; reference-graph oracle with watchdog for replays')
+CHECKS['C10'] = dict(
+    text='Machine-checked: C10_at_most_once (in every successful build the dynamic events - call/bind/eval - have pairwise distinct paths and each has its result recorded), '
+         'C10_memo_invariant (the state-extension invariant for every evaluation step: recorded, never overwritten, in-progress nodes not completed by nested evaluation, fresh distinct events), '
+         'C10_same_object (any later evaluation of the same path returns the recorded object and changes nothing). Partial: "exactly once" = at-most-once (theorem) + every live node is reached '
+         '(correspondence: the model logs the same calls in the same order as the implementation); key-order independence and "overwritten nodes never run" are decided by the correspondence and the oracles.',
+    design='4 (C10)',
+    technique='Coq invariant proof over the evaluator model; sampled vm_compute correspondence of values, identities and call order; counting / permutation / overwrite oracles for replays')
+CHECKS['C14'] = dict(
+    text='Machine-checked: C14_scan_complete (the scan reports exactly the paths of the placeholders, uniformly for mappings, lists and call/bind arguments), C14_paths_resolve (every reported path '
+         'resolves back to its placeholder in a well-formed tree), C14_iff (construction fails with the missing-placeholder error exactly when the scan is non-empty, before any state/event exists; '
+         'evaluation itself never produces that error). That an overridden/deleted placeholder is gone from the merged tree is C02/C04; the whole pipeline is tied by the evaluator correspondence.',
+    design='4 (C14)',
+    technique='Coq proofs about check_missing / nodes_with_paths and the error classes of the evaluator model; sampled vm_compute correspondence; oracle comparing the listed paths with an independent tree walk (incl. aliased placeholders)')
+
 NOT_APPLICABLE = {}
 
 
